@@ -497,3 +497,146 @@ Lemma e2e_superseded_witness :
   e2e_snapshot (e2e_run SupersededSurvives world0 [EPadr e2e_k; EPadr e2e_k]) e2e_k = (0%nat, 2%nat, Some proto_pppoe) /\
   e2e_snapshot (e2e_run SupersededSurvives world0 [EPadr e2e_k; EPadr e2e_k; EDiscover e2e_k]) e2e_k = (1%nat, 1%nat, Some proto_ipoe).
 Proof. vm_compute. split; reflexivity. Qed.
+
+(* ---- restart ---- *)
+Definition keys_nodup (w : world) : Prop := NoDup (map fst (w_ipoe w)).
+
+Lemma ipoe_terminate_keys v w ev : keys_nodup w -> keys_nodup (ipoe_terminate v w ev).
+Proof.
+  unfold keys_nodup, ipoe_terminate. destruct ev as [sid k]. intros H.
+  destruct (match key_hit v sid (m_get k (w_ipoe w)) with Some s => Some s | None => find_sid sid (w_ipoe w) end);
+    [cbn [w_ipoe]; apply m_del_keys_nodup; exact H | exact H].
+Qed.
+Lemma pppoe_terminate_ipoe v w ev : w_ipoe (pppoe_terminate v w ev) = w_ipoe w.
+Proof.
+  unfold pppoe_terminate. destruct ev as [sid k].
+  destruct (match key_hit v sid (m_get k (w_pp_key w)) with Some s => Some (o_key s, o_sid s) | None => find_pp sid (w_pp_all w) end)
+    as [[k' sid']|]; reflexivity.
+Qed.
+Lemma deliver_keys v evs k : forall w, keys_nodup w -> keys_nodup (deliver v w evs k).
+Proof.
+  unfold deliver. induction evs as [|sid r IH]; intros w H; [exact H|]. cbn [fold_left]. apply IH.
+  unfold keys_nodup. rewrite pppoe_terminate_ipoe. apply ipoe_terminate_keys. exact H.
+Qed.
+Lemma step_keys v w o : keys_nodup w -> keys_nodup (e2e_step v w o).
+Proof.
+  intros H.
+  assert (Hc : forall b, keys_nodup (ipoe_create v b w (match o with EDiscover k | ERequest k | ESolicit k | EPadr k => k end))).
+  { intros b. unfold ipoe_create. destruct (m_get _ (w_ipoe w)); [exact H|]. cbn [w_reg w_ipoe w_pp_key w_pp_all w_next].
+    destruct b.
+    - destruct (component_claim proto_ipoe (w_reg w) _ _) as [r' evs]. apply deliver_keys. unfold keys_nodup. cbn [w_ipoe].
+      apply m_set_keys_nodup. exact H.
+    - unfold keys_nodup. cbn [w_ipoe]. apply m_set_keys_nodup. exact H. }
+  destruct o as [k|k|k|k]; cbn [e2e_step]; try apply Hc.
+  destruct (site_claim (v_evict_pp v) proto_pppoe (w_reg w) k (pppoe_sid (w_next w))) as [r' evs].
+  apply deliver_keys. exact H.
+Qed.
+Lemma run_keys v ops : forall w, keys_nodup w -> keys_nodup (e2e_run v w ops).
+Proof. induction ops as [|o r IH]; intros w H; [exact H|]. cbn [e2e_run fold_left]. apply IH. apply step_keys. exact H. Qed.
+
+(* folding claims over a list of sessions: the last claim on a tuple decides *)
+Lemma fold_reclaim_ipoe_get k L : forall r, reg_ok r ->
+  reg_ok (fold_left reclaim_ipoe L r) /\
+  reg_get (fold_left reclaim_ipoe L r) k =
+  fold_left (fun acc e => if key_eqb k (fst e) then Some (ipo (o_sid (snd e)) (fst e)) else acc) L (reg_get r k).
+Proof.
+  induction L as [|e t IH]; intros r Hok; [split; [exact Hok | reflexivity]|].
+  cbn [fold_left]. unfold reclaim_ipoe at 2 4.
+  destruct (IH (fst (component_claim proto_ipoe r (fst e) (o_sid (snd e)))) (cclaim_ok _ _ _ _ Hok)) as [A B].
+  split; [exact A|]. rewrite B. rewrite cclaim_get by exact Hok. reflexivity.
+Qed.
+Lemma fold_reclaim_pppoe_get k L : forall r, reg_ok r ->
+  reg_ok (fold_left reclaim_pppoe L r) /\
+  reg_get (fold_left reclaim_pppoe L r) k =
+  fold_left (fun acc e => if key_eqb k (fst e) then Some (ppo (snd e) (fst e)) else acc) L (reg_get r k).
+Proof.
+  induction L as [|e t IH]; intros r Hok; [split; [exact Hok | reflexivity]|].
+  cbn [fold_left]. unfold reclaim_pppoe at 2 4.
+  destruct (IH (fst (component_claim_any proto_pppoe r (fst e) (snd e))) (cany_ok _ _ _ _ Hok)) as [A B].
+  split; [exact A|]. rewrite B. rewrite cany_get by exact Hok. reflexivity.
+Qed.
+Lemma fold_decides {E} (hit : E -> bool) (val : E -> owner) (v : owner) (L : list E) :
+  (forall e, In e L -> hit e = true -> val e = v) ->
+  forall acc, fold_left (fun acc e => if hit e then Some (val e) else acc) L acc =
+              if existsb hit L then Some v else acc.
+Proof.
+  induction L as [|e t IH]; intros H acc; [reflexivity|]. cbn [fold_left existsb].
+  rewrite IH by (intros e' Hin; apply H; right; exact Hin).
+  destruct (hit e) eqn:Eh; cbn [orb].
+  - rewrite (H e (or_introl eq_refl) Eh). destruct (existsb hit t); reflexivity.
+  - reflexivity.
+Qed.
+
+(* after a restart every live session owns its tuple again: the rebuilt registry names exactly the
+   owners the registry named before, for every tuple *)
+Lemma restart_reowns w : Inv w -> keys_nodup w ->
+  forall k, reg_get (w_reg (e2e_restart w)) k = reg_get (w_reg w) k.
+Proof.
+  intros [Hok Hsids Hip Hps Hpu Hpp Hown Hnd] Hkeys k. unfold e2e_restart. cbn [w_reg].
+  destruct (fold_reclaim_ipoe_get k (w_ipoe w) new_registry new_registry_ok) as [Hok1 G1].
+  destruct (fold_reclaim_pppoe_get k (w_pp_all w) _ Hok1) as [_ G2]. rewrite G2, G1, reg_get_new. clear G1 G2.
+  (* ipoe part: the entry of k, if any *)
+  set (A := fold_left (fun acc e => if key_eqb k (fst e) then Some (ipo (o_sid (snd e)) (fst e)) else acc) (w_ipoe w) None).
+  assert (HA : A = m_get k (w_ipoe w)).
+  { unfold A. destruct (m_get k (w_ipoe w)) as [s|] eqn:Eg.
+    - rewrite (fold_decides (fun e => key_eqb k (fst e)) (fun e => ipo (o_sid (snd e)) (fst e)) s).
+      + assert (existsb (fun e => key_eqb k (fst e)) (w_ipoe w) = true) as ->; [|reflexivity].
+        apply existsb_exists. exists (k, s). split; [apply m_get_some_in; exact Eg | apply key_eqb_refl].
+      + intros [k2 s2] Hin Hh. cbn [fst snd] in *. apply key_eqb_eq in Hh. subst k2.
+        pose proof (m_get_in _ _ _ Hkeys Hin) as G. rewrite Eg in G. inversion G; subst s2.
+        destruct (Hip _ _ Eg) as [Es _]. symmetry. exact Es.
+    - rewrite (fold_decides (fun e => key_eqb k (fst e)) (fun e => ipo (o_sid (snd e)) (fst e)) (ipo [] k)).
+      + assert (existsb (fun e => key_eqb k (fst e)) (w_ipoe w) = false) as ->; [|reflexivity].
+        destruct (existsb _ (w_ipoe w)) eqn:Ex; [|reflexivity]. apply existsb_exists in Ex.
+        destruct Ex as [[k2 s2] [Hin Hh]]. cbn [fst] in Hh. apply key_eqb_eq in Hh. subst k2.
+        rewrite (m_get_in _ _ _ Hkeys Hin) in Eg. discriminate.
+      + intros [k2 s2] Hin Hh. cbn [fst] in Hh. apply key_eqb_eq in Hh. subst k2.
+        rewrite (m_get_in _ _ _ Hkeys Hin) in Eg. discriminate. }
+  rewrite HA. clear A HA.
+  destruct (reg_get (w_reg w) k) as [o|] eqn:Er.
+  - destruct (Hown _ _ Er) as [Hl|Hr].
+    + (* ipoe owner: no pppoe session of the tuple *)
+      rewrite Hl. rewrite (fold_decides (fun e => key_eqb k (fst e)) (fun e => ppo (snd e) (fst e)) o).
+      * assert (existsb (fun e : key * bytes => key_eqb k (fst e)) (w_pp_all w) = false) as ->; [|reflexivity].
+        destruct (existsb _ (w_pp_all w)) eqn:Ex; [|reflexivity]. apply existsb_exists in Ex.
+        destruct Ex as [[k2 s2] [Hin Hh]]. cbn [fst] in Hh. apply key_eqb_eq in Hh. subst k2.
+        destruct (Hpp _ _ Hin) as [Hr2 _]. rewrite Er in Hr2. destruct (Hip _ _ Hl) as [Es _].
+        injection Hr2 as E2. rewrite E2 in Es. unfold ipo, ppo in Es. inversion Es.
+      * intros [k2 s2] Hin Hh. cbn [fst snd] in *. apply key_eqb_eq in Hh. subst k2.
+        destruct (Hpp _ _ Hin) as [Hr2 _]. rewrite Er in Hr2. injection Hr2 as E2. symmetry. exact E2.
+    + destruct (Hpp _ _ Hr) as [Hr2 _]. rewrite Er in Hr2. injection Hr2 as Eo.
+      rewrite (fold_decides (fun e => key_eqb k (fst e)) (fun e => ppo (snd e) (fst e)) o).
+      * assert (existsb (fun e : key * bytes => key_eqb k (fst e)) (w_pp_all w) = true) as ->; [|reflexivity].
+        apply existsb_exists. exists (k, o_sid o). split; [exact Hr | apply key_eqb_refl].
+      * intros [k2 s2] Hin Hh. cbn [fst snd] in *. apply key_eqb_eq in Hh. subst k2.
+        destruct (Hpp _ _ Hin) as [Hr3 _]. rewrite Er in Hr3. injection Hr3 as E3. symmetry. exact E3.
+  - assert (m_get k (w_ipoe w) = None) as ->.
+    { destruct (m_get k (w_ipoe w)) as [s|] eqn:E; [|reflexivity]. destruct (Hip _ _ E) as [_ Hr]. congruence. }
+    rewrite (fold_decides (fun e => key_eqb k (fst e)) (fun e => ppo (snd e) (fst e)) (ipo [] k)).
+    + assert (existsb (fun e : key * bytes => key_eqb k (fst e)) (w_pp_all w) = false) as ->; [|reflexivity].
+      destruct (existsb _ (w_pp_all w)) eqn:Ex; [|reflexivity]. apply existsb_exists in Ex.
+      destruct Ex as [[k2 s2] [Hin Hh]]. cbn [fst] in Hh. apply key_eqb_eq in Hh. subst k2.
+      destruct (Hpp _ _ Hin) as [Hr2 _]. congruence.
+    + intros [k2 s2] Hin Hh. cbn [fst] in Hh. apply key_eqb_eq in Hh. subst k2.
+      destruct (Hpp _ _ Hin) as [Hr2 _]. congruence.
+Qed.
+
+Lemma restart_reowns_run ops :
+  let w := e2e_run Repaired world0 ops in
+  forall k, reg_get (w_reg (e2e_restart w)) k = reg_get (w_reg w) k /\
+            e2e_snapshot (e2e_restart w) k = e2e_snapshot w k.
+Proof.
+  intros w k.
+  assert (H : reg_get (w_reg (e2e_restart w)) k = reg_get (w_reg w) k).
+  { apply restart_reowns; [apply run_inv; apply inv0 | apply run_keys; constructor]. }
+  split; [exact H|]. unfold e2e_snapshot. rewrite H. reflexivity.
+Qed.
+
+(* the recorded defect of /repo's ipoe restore path: a half-established restored session owns nothing and
+   coexists with a PPPoE session *)
+Lemma restart_skipping_witness :
+  let w := e2e_run Repaired world0 [EDiscover e2e_k] in
+  e2e_snapshot (e2e_restart_skipping [e2e_k] w) e2e_k = (1%nat, 0%nat, None) /\
+  e2e_snapshot (e2e_step Repaired (e2e_restart_skipping [e2e_k] w) (EPadr e2e_k)) e2e_k = (1%nat, 1%nat, Some proto_pppoe) /\
+  e2e_snapshot (e2e_restart w) e2e_k = (1%nat, 0%nat, Some proto_ipoe).
+Proof. vm_compute. repeat split; reflexivity. Qed.
